@@ -304,6 +304,9 @@ static std::string dump(const toks_t& t)
     std::string s4;
     jsoncons::encode_json(v, s4, o, pretty ? jsoncons::indenting::indent : jsoncons::indenting::no_indent);
     out += (s3 == s && s4 == s) ? " | entry-same" : " | entry-diff";
+    std::string sc;
+    v.dump(sc, o);
+    out += " | cx" + hex(sc);
     return out;
 }
 
